@@ -84,7 +84,7 @@ class Check(c01.Check):
             self.notes.append('class sweep failed: ' + err[-300:])
         else:
             self._class_sweep = len(sw)
-            for name, ctor, argkind, status in sw:
+            for name, ctor, argkind, status, _want, _rates in sw:
                 if status != 'ok':
                     out.append({'what': f'definition with one {name}.{ctor}({"" if argkind == "none" else argkind}) unit: {status}',
                                 'signature': f'c02:class-sweep:{name}', 'case': {'class': name, 'ctor': ctor, 'arg': argkind}})
